@@ -11,7 +11,7 @@ from ..dataflow import origins
 from ..loader import AnalysisError, ConstInfo, FuncInfo
 from ..regexlang import Regex
 from ..report import Ctx
-from .common import call_name, norm, where
+from .common import call_name, deep_origins, factory_closure, norm, where
 from .wrap import TH
 
 AP = "flowmark.linewrapping.atomic_patterns"
@@ -132,11 +132,76 @@ def check_tables(ctx: Ctx) -> None:
     ctx.ob("R-ATOMIC-derived", f"{ict.qual} :: closing-tag spellings", lits == want,
            f"a closing tag is `<open delimiter> /...` for each of the four families: expected {want}, found {lits}", where(ict, ict.node))
     # tag predicates consult all four families
-    for fn in ("line_ends_with_tag", "line_starts_with_tag", "_is_tag_only_line"):
+    # (decided on the delimiter *strings* each predicate compares against with startswith / endswith, read through
+    # module constants and helper predicates - not on how the comparison is spelled)
+    opens = {str(r.fields["open_delim"]) for r in singles}
+    closes = {str(r.fields["close_delim"]) for r in singles}
+    for fn, need_open, need_close in (("line_ends_with_tag", False, True), ("line_starts_with_tag", True, False), ("_is_tag_only_line", True, True)):
         f = repo.func(f"{TH}:{fn}")
-        used = {norm(a.value) for a in ast.walk(f.node) if isinstance(a, ast.Attribute) and a.attr in ("open_delim", "close_delim")}
-        ok = all(any(u == n for u in used) for n in ("SINGLE_JINJA_TAG", "SINGLE_JINJA_COMMENT", "SINGLE_JINJA_VAR", "SINGLE_HTML_COMMENT"))
-        ctx.ob("R-ATOMIC-derived", f"{f.qual} :: all four tag families", ok, f"the predicate must test every tag family; it uses {sorted(used)}", where(f, f.node))
+        got = _affix_tests(ctx, folder, f)
+        ok = (not need_open or opens <= got["startswith"]) and (not need_close or closes <= got["endswith"])
+        ctx.ob("R-ATOMIC-derived", f"{f.qual} :: all four tag families", ok,
+               f"the predicate must test every tag family ({sorted(opens) if need_open else ''} {sorted(closes) if need_close else ''}); "
+               f"it tests startswith {sorted(got['startswith'])} / endswith {sorted(got['endswith'])}", where(f, f.node))
+
+
+def _fold_strs(ctx: Ctx, folder: Folder, fi: FuncInfo, e: ast.AST) -> set[str] | None:
+    """The constant string(s) an expression denotes: "x", CONST, RECORD.field, or a tuple of those."""
+    if isinstance(e, ast.Constant) and isinstance(e.value, str):
+        return {e.value}
+    if isinstance(e, ast.Tuple):
+        out: set[str] = set()
+        for x in e.elts:
+            v = _fold_strs(ctx, folder, fi, x)
+            if v is None:
+                return None
+            out |= v
+        return out
+    if isinstance(e, ast.Attribute) and isinstance(e.value, ast.Name):
+        r = ctx.repo.lookup(e.value.id, fi.module, fi)
+        if isinstance(r, ConstInfo):
+            try:
+                v = folder.const(r.qual)
+            except Unknown:
+                return None
+            if isinstance(v, Record) and isinstance(v.fields.get(e.attr), str):
+                return {v.fields[e.attr]}
+        return None
+    if isinstance(e, ast.Name):
+        r = ctx.repo.lookup(e.id, fi.module, fi)
+        if isinstance(r, ConstInfo):
+            try:
+                v = folder.const(r.qual)
+            except Unknown:
+                return None
+            if isinstance(v, str):
+                return {v}
+            if isinstance(v, tuple) and all(isinstance(x, str) for x in v):
+                return set(v)
+    return None
+
+
+def _affix_tests(ctx: Ctx, folder: Folder, f: FuncInfo, depth: int = 0, seen: set[str] | None = None) -> dict[str, set[str]]:
+    """Constant prefixes / suffixes the function (and the module-local helpers it calls) tests with startswith / endswith."""
+    seen = seen if seen is not None else set()
+    out: dict[str, set[str]] = {"startswith": set(), "endswith": set()}
+    if f.qual in seen or depth > 3:
+        return out
+    seen.add(f.qual)
+    for c in walk_no_nested(f.node):
+        if not isinstance(c, ast.Call):
+            continue
+        if isinstance(c.func, ast.Attribute) and c.func.attr in out and len(c.args) >= 1:
+            v = _fold_strs(ctx, folder, f, c.args[0])
+            if v is not None:
+                out[c.func.attr] |= v
+            continue
+        t = ctx.prog.resolve_call(f, c)
+        if isinstance(t, list) and len(t) == 1 and t[0].module is f.module and not isinstance(t[0].node, ast.Lambda):
+            sub = _affix_tests(ctx, folder, t[0], depth + 1, seen)
+            for k in out:
+                out[k] |= sub[k]
+    return out
 
 
 def _literal_of(pattern) -> str | None:
@@ -158,14 +223,14 @@ def check_post_passes(ctx: Ctx) -> None:
     """The tag post-passes run on every exit of the tag newline handler."""
     repo, prog = ctx.repo, ctx.prog
     fac = repo.func(f"{TH}:add_tag_newline_handling")
-    w = next(f for f in fac.local_defs.values() if isinstance(f, FuncInfo))
+    w = factory_closure(prog, fac)
     flow = prog.flow(w)
     fm_q = f"{TH}:_fix_multiline_opening_tag_with_closing"
     fc_q = f"{TH}:_fix_closing_tag_spacing"
     rets = flow.cfg.returns()
     ctx.require("R-ATOMIC-post", "returns of the tag newline handler", len(rets), 1)
     for r in rets:
-        org = origins(prog, w, r.ast.value, r)
+        org = deep_origins(prog, w, r.ast.value, r, stop={fm_q})
         ctx.ob("R-ATOMIC-post", f"{w.qual} :: {norm(r.ast)} passes the multi-line tag fix", org == frozenset({("call", fm_q)}),
                "every result of the handler must go through _fix_multiline_opening_tag_with_closing; it is " + ", ".join(str(o[1]) for o in org),
                where(w, r))
